@@ -62,13 +62,17 @@ fn decode_inner(buf: &mut BytesMut) -> Result<Option<(RequestId, (Tag, Vec<Contr
     buf.advance(buf.len() - i.len());
     let tag = tag.clone();
     let mut tags = match tag
-        .match_id(Types::Sequence as u64)
+        .match_class(TagClass::Universal)
+        .and_then(|t| t.match_id(Types::Sequence as u64))
         .and_then(|t| t.expect_constructed())
     {
         Some(tags) => tags,
         None => return Err(decoding_error),
     };
-    let mut maybe_controls = tags.pop().expect("element");
+    let mut maybe_controls = match tags.pop() {
+        Some(elem) => elem,
+        None => return Err(decoding_error),
+    };
     let has_controls = match maybe_controls {
         StructureTag {
             id,
@@ -86,13 +90,19 @@ fn decode_inner(buf: &mut BytesMut) -> Result<Option<(RequestId, (Tag, Vec<Contr
             // but AD puts it outside, where the optional controls belong. This confuses
             // our parser, which doesn't expect the extra sequence element at the end
             // and crashes. This match arm thus ignores the element.
-            maybe_controls = tags.pop().expect("element");
+            maybe_controls = match tags.pop() {
+                Some(elem) => elem,
+                None => return Err(decoding_error),
+            };
             false
         }
         _ => false,
     };
     let (protoop, controls) = if has_controls {
-        (tags.pop().expect("element"), Some(maybe_controls))
+        match tags.pop() {
+            Some(elem) => (elem, Some(maybe_controls)),
+            None => return Err(decoding_error),
+        }
     } else {
         (maybe_controls, None)
     };
@@ -100,18 +110,21 @@ fn decode_inner(buf: &mut BytesMut) -> Result<Option<(RequestId, (Tag, Vec<Contr
         Some(controls) => parse_controls(controls),
         None => vec![],
     };
-    let msgid = match parse_uint(
-        tags.pop()
-            .expect("element")
-            .match_class(TagClass::Universal)
-            .and_then(|t| t.match_id(Types::Integer as u64))
-            .and_then(|t| t.expect_primitive())
-            .expect("message id")
-            .as_slice(),
-    ) {
-        Ok((_, id)) => id as i32,
-        _ => return Err(decoding_error),
+    let msgid = match tags
+        .pop()
+        .and_then(|t| t.match_class(TagClass::Universal))
+        .and_then(|t| t.match_id(Types::Integer as u64))
+        .and_then(|t| t.expect_primitive())
+    {
+        Some(octets) => match parse_uint(octets.as_slice()) {
+            Ok((_, id)) => id as i32,
+            _ => return Err(decoding_error),
+        },
+        None => return Err(decoding_error),
     };
+    if !tags.is_empty() {
+        return Err(decoding_error);
+    }
     Ok(Some((msgid, (Tag::StructureTag(protoop), controls))))
 }
 
